@@ -234,8 +234,7 @@ def redirectModel : List String → String
       | .outOfModel => "out-of-model"
       | .ok uri =>
         -- the first field is the port of the HTTPS site; redirPlaintextHost derives the handler's redirPort from it
-        let rp := ((redirPlaintextHost { port := p }).redir).getD []
-        s!"{redirStatus} {q (redirLocation rp h uri)}"
+        s!"{redirStatus} {q (redirLocation (capturedPort p) h uri)}"
     | _, _, _ => "bad-case"
   | _ => "bad-case"
 
